@@ -7,7 +7,7 @@ import (
 	m3thrift "github.com/uber-go/tally/v4/m3/thrift/v2"
 )
 
-// VerifC12EndToEnd: the bound itself, end to end, for a packet limit that holds exactly three
+// VerifC12EndToEnd: the bound itself, end to end, for a packet limit that holds exactly six
 // worst-case counters: one handle reports a small value first and then arbitrary values; every
 // datagram stays within MaxPacketSizeBytes and every value arrives once.  (This file does not look
 // at the reporter's private size fields, so it survives changes of their representation.)
@@ -18,14 +18,14 @@ func VerifC12EndToEnd() {
 	}
 	probe, _ := vNew(proto, 4, 4000, nil)
 	worst := probe.calculateSize(probe.newMetric("c", nil, counterType))
-	limit := probe.overheadBytes + 3*worst
+	limit := probe.overheadBytes + 6*worst
 	verifrt.Assert("c12.e2e.probe-close", probe.Close() == nil)
 
 	r, addr := vNew(proto, 8, limit, nil)
 	c := r.AllocateCounter("c", nil)
 	c.ReportCount(1) // a first use with a narrow value must not make later wide values cheaper
 	vals := []int64{1}
-	for i := 0; i < 3; i++ {
+	for i := 0; i < 7; i++ {
 		v := verifrt.Int64("v")
 		if i > 0 {
 			// the later values are wide ones (10-byte varints); the first is arbitrary
@@ -36,7 +36,9 @@ func VerifC12EndToEnd() {
 	}
 	verifrt.Assert("c12.e2e.close-ok", r.Close() == nil)
 	n := verifrt.SinkDatagrams(addr)
+	verifrt.Emit("limit", int64(limit))
 	for i := 0; i < n; i++ {
+		verifrt.Emit("datagram-bytes", int64(len(verifrt.SinkDatagram(addr, i))))
 		verifrt.Assert("c12.e2e.datagram-within-max-packet-size", len(verifrt.SinkDatagram(addr, i)) <= int(limit))
 	}
 	next := 0
